@@ -221,3 +221,41 @@ def q2(ctx):
                       "keys such as 'p-5-500000000000000' (queue with prefix 'p-5'): queues whose prefixes extend one "
                       'another interfere', f.loc(ev0.node)))
     return obs
+
+
+@rule('Q3', floor=1, title='the counter of a queue key is cut out by position, never by character-set stripping with the prefix')
+def q3(ctx):
+    """str.strip/lstrip/rstrip take a *set of characters*: `key.lstrip(prefix + '-')` also eats leading digits of
+    the counter whenever the prefix contains a digit or the counter's leading characters occur in the prefix."""
+    obs = []
+    n = 0
+    from .rules_check import _with_helpers
+    for name in ('push', 'pull', 'peek'):
+        f = ctx.method('Cache', name)
+        for g in _with_helpers(ctx, f):
+            for node in ast.walk(g.node):
+                if not (isinstance(node, ast.Call) and isinstance(node.func, ast.Attribute)
+                        and node.func.attr in ('strip', 'lstrip', 'rstrip')):
+                    continue
+                n += 1
+                arg = node.args[0] if node.args else None
+                ok = arg is None or (isinstance(arg, ast.Constant) and isinstance(arg.value, str)
+                                     and len(arg.value) <= 1)
+                if not ok:
+                    try:
+                        v = ctx.fold(arg, g.module)
+                        ok = isinstance(v, str) and len(v) <= 1
+                    except ValueError:
+                        ok = False
+                obs.append(Ob('Q3', 'Cache.%s/%s#%d' % (name, node.func.attr, n), ok,
+                              '%s(%s) strips a set of characters, not a prefix: with a prefix that contains digits the '
+                              'leading digits of the 15-digit counter are eaten too, the next key is computed from a '
+                              'wrong number and the new item overwrites or precedes existing ones' %
+                              (node.func.attr, ast.unparse(arg) if arg is not None else ''), g.loc(node)))
+    # the parse of the neighbour key in push: int(<text after the last separator>)
+    f = ctx.method('Cache', 'push')
+    ints = [node for g in _with_helpers(ctx, f) for node in ast.walk(g.node)
+            if isinstance(node, ast.Call) and isinstance(node.func, ast.Name) and node.func.id == 'int']
+    obs.append(Ob('Q3', 'Cache.push/parses-counter', bool(ints), 'push no longer derives the next key from the integer '
+                  'value of the neighbour key', f.loc(), nontrivial=True))
+    return obs
